@@ -48,6 +48,13 @@ structure SkipState where
 def SkipState.init (hasExo : Bool) : SkipState :=
   { pred := false, state := false, exo := if hasExo then some false else none, corr := false }
 
+/-- `DrawParticles(std::unique_ptr<StateModel>, std::unique_ptr<ExogenousModel>)`: the second
+    argument is moved into the member `exogenous_model_`, which nothing reads; it is *not*
+    attached to the state model (`add_exogenous_model` is never called).  The configuration the
+    skip machinery (and `LinearStateModel::propagate`) sees therefore has no exogenous model,
+    whatever the caller supplied. -/
+def drawTwoArgConfig (_suppliedExo : Bool) : SkipState := SkipState.init false
+
 /-- What the caller of `skip` sees. -/
 inductive Outcome
   | ret (b : Bool)
